@@ -204,6 +204,93 @@ impl Prop for C02 {
                     out.push(format!("sdec {} {} x{}", name, lim.show(), hex(&m)));
                 }
             }
+            // (ii'') UA-TCP messages and headers
+            {
+                let ty = *rng.pick(&["MsgHeader", "Hello", "Hello", "Ack", "Error", "ChunkHeader", "ReadBytes", "ReadBytes"]);
+                let mut lim = limits(rng);
+                let mut b: Vec<u8> = Vec::new();
+                b.extend_from_slice(*rng.pick(&[&b"HEL"[..], b"HEL", b"ACK", b"ERR", b"MSG", b"OPN", b"CLO", b"XYZ"]));
+                b.push(*rng.pick(&[b'F', b'F', b'F', b'C', b'A', b'Q']));
+                let body = rng.below(40) as usize;
+                let size: u32 = match rng.below(10) {
+                    0 => 0,
+                    1 => 3,
+                    2 => 7,
+                    3 => 8,
+                    4 => 9,
+                    5 => body as u32 + 8,
+                    6 => body as u32 + 9,
+                    7 => 8192,
+                    8 => 65536,
+                    // read_bytes allocates what is declared: keep even a defective run at 16 MiB
+                    _ => {
+                        if ty == "ReadBytes" {
+                            16 << 20
+                        } else {
+                            u32::MAX
+                        }
+                    }
+                };
+                b.extend_from_slice(&size.to_le_bytes());
+                match ty {
+                    "Hello" | "Ack" => {
+                        for _ in 0..5 {
+                            let v: u32 = *rng.pick(&[0u32, 1, 8192, 8196, 65535, u32::MAX]);
+                            b.extend_from_slice(&v.to_le_bytes());
+                        }
+                    }
+                    "Error" => b.extend_from_slice(&(rng.next() as u32).to_le_bytes()),
+                    _ => {}
+                }
+                if ty == "Hello" || ty == "Error" {
+                    let n: i32 = match rng.below(8) {
+                        0 => -1,
+                        1 => -2,
+                        2 => lim.max_str as i32 + 1,
+                        3 => i32::MAX,
+                        _ => (lim.max_str.min(30)) as i32,
+                    };
+                    b.extend_from_slice(&n.to_le_bytes());
+                    let k = (n.max(0) as usize).min(60);
+                    let url = b"opc.tcp://localhost:4855/abcdefghijklmnopqrstuvwxyz0123456789-_".iter().cycle().take(k).copied().collect::<Vec<u8>>();
+                    b.extend(url);
+                } else {
+                    b.extend(rng.bytes(body));
+                }
+                if ty == "ReadBytes" {
+                    // a limit is always configured unless the declared size is small
+                    lim.max_msg = if size <= 100_000 && rng.chance(1, 3) { 0 } else { *rng.pick(&[8usize, 64, 8192, 65535]) };
+                }
+                if rng.chance(1, 6) {
+                    b = mutate(rng, &b);
+                }
+                if rng.chance(1, 10) {
+                    b.truncate(rng.below(b.len() as u64 + 1) as usize);
+                }
+                out.push(format!("dec {} {} x{}", ty, lim.show(), hex(&b)));
+            }
+            // (ii''') the object-id dispatch of service messages
+            {
+                let d = dispatch::DISPATCHED;
+                let (id, name) = d[(case * 5 + 1) % d.len()];
+                let bytes = {
+                    let mut g = Gen::new(rng);
+                    g.lens = vec![0, 1, 2, 3, 5];
+                    g.struct_bytes(name, true).0
+                };
+                let id = match rng.below(10) {
+                    // ObjectIds that are not dispatched, numbers that are no ObjectId, another message's id
+                    0 => *rng.pick(&[78u32, 80, 628, 2253, 15957]),
+                    1 => *rng.pick(&[0u32, 1, 77, 999_999, u32::MAX]),
+                    2 => d[rng.below(d.len() as u64) as usize].0,
+                    _ => id,
+                };
+                if bytes.len() <= 3000 {
+                    let lim = limits(rng);
+                    let m = if rng.chance(1, 2) { bytes } else { mutate(rng, &bytes) };
+                    out.push(format!("msg {} {} x{}", id, lim.show(), hex(&m)));
+                }
+            }
             // (iii) nesting families
             {
                 let (ty, prefix, tail) = rng.pick(&fams).clone();
@@ -263,6 +350,40 @@ impl Runner for R {
                     Verdict::Ok
                 };
                 (r.0, v)
+            }
+            ["msg", id, opts, h] => {
+                let (id, lim, bytes) = match (id.parse::<u32>(), Lim::parse(opts), unhex(h)) {
+                    (Ok(i), Some(l), Some(b)) => (i, l, b),
+                    _ => return ("bad-op".to_string(), Verdict::Ok),
+                };
+                let (line, peak) = metered(|| run_msg(id, &lim, &bytes));
+                let bound = lim.max_str.max(lim.max_bytes).max(lim.max_arr.saturating_mul(4096)).max(bytes.len() * 4) + SLACK;
+                let v = if peak > bound {
+                    Verdict::fail("alloc_bounded", "msg", format!("requested {} bytes > {} under {:?}", peak, bound, lim))
+                } else {
+                    Verdict::Ok
+                };
+                (line, v)
+            }
+            ["dec", ty @ ("MsgHeader" | "Hello" | "Ack" | "Error" | "ChunkHeader" | "ReadBytes"), opts, h] => {
+                let (lim, bytes) = match (Lim::parse(opts), unhex(h)) {
+                    (Some(l), Some(b)) => (l, b),
+                    _ => return ("bad-op".to_string(), Verdict::Ok),
+                };
+                let (line, peak) = metered(|| run_tcp(ty, &lim, &bytes));
+                // the url / reason is a string under max_string_length; read_bytes allocates the
+                // declared size, which max_message_size bounds (2^32-1 when unlimited)
+                let bound = if *ty == "ReadBytes" {
+                    (if lim.max_msg > 0 { lim.max_msg } else { u32::MAX as usize }).max(bytes.len()) * 3 + SLACK
+                } else {
+                    lim.max_str.max(bytes.len()) * 3 + SLACK
+                };
+                let v = if peak > bound {
+                    Verdict::fail("alloc_bounded", ty, format!("requested {} bytes > {} under {:?}", peak, bound, lim))
+                } else {
+                    Verdict::Ok
+                };
+                (line.unwrap_or_else(|| "bad-op".to_string()), v)
             }
             ["dec", ty, opts, h] => {
                 let (lim, bytes) = match (Lim::parse(opts), unhex(h)) {
